@@ -6,13 +6,14 @@
    on tokens) and blank-splitting for shellquote.Split on a line without quotes.  Each is tied to
    the implementation by the correspondence check of this property and of C06 / C14.
 
-   Proved: the full round trip for every rule that is printed in the -a form.
-   Not proved (decided on every generated rule by the checker chk_C07 and the correspondence):
-   the -w form, i.e. rules with exactly a path/dir, a perm and at most a key field. *)
+   Proved: the full round trip for every syscall rule (-a / -A line) the Build model accepts, whether
+   ToCommandLine prints it in the -a form or, having exactly the shape of a watch, in the -w form.
+   Not proved: rules entered as file watches (-w lines) are decided on every generated rule by the
+   checker chk_C07 and the correspondence. *)
 From Coq Require Import List Ascii String NArith ZArith Bool.
 Import ListNotations.
 Require Import Bytes Mach RuleTables RuleDecode Mask RuleEncode RuleText RuleValue FilterRe Flags RuleBuild.
-Require Import RuleWire RuleSpecWf RuleReprint RuleFlagsBack RuleFieldsBack RuleRoundTrip RuleTextSplit RuleDecodeBack RuleValueProofs RuleMaskText.
+Require Import RuleWire RuleSpecWf RuleReprint RuleFlagsBack RuleFieldsBack RuleRoundTrip RuleWatchBack RuleTextSplit RuleDecodeBack RuleValueProofs RuleMaskText.
 Open Scope N_scope.
 
 (* the wire layer alone *)
@@ -51,6 +52,33 @@ Proof.
   split; [exact Ht|]. split; [exact Hr|]. rewrite Hr. reflexivity.
 Qed.
 
+(* the -w form: a rule of exactly the watch shape, under the property's proviso that the filesystem agrees
+   (path= names a non-directory, dir= an existing directory: fs_agrees) and that trimming leaves the key alone *)
+Theorem C07_round_trip_w_form (stat : str -> bool) li ac fs scs keys s d its :
+  spec_of_prule li ac fs scs keys = Some s -> data_of_spec s = Some d ->
+  Forall filter_ok fs -> keys_ok keys -> not_finding_103 d ->
+  watch_items (w_flags d) (w_action d) (w_mask d) (w_triples d) (w_strings d) = Some its ->   (* printed in the -w form *)
+  fs_agrees stat d -> key_trim_stable d ->
+  exists text,
+    text_of_wire (to_wire d) = Some text /\ rebuild stat text = Some d /\ option_map to_wire (rebuild stat text) = Some (to_wire d).
+Proof.
+  intros Hspec Hdata Hf Hk H103 Hw Hfs Htrim.
+  destruct (watch_form_round_trip stat _ _ _ _ _ _ _ _ Hspec Hdata Hf Hk H103 Hw Hfs Htrim) as (Htok & Hfo & p' & Hparse & Hbuild).
+  destruct (built_of_data _ _ _ _ _ _ _ Hspec Hdata Hf Hk) as (fsK & lK & HbK & Hts & Hss).
+  pose proof (built_aligned _ _ _ HbK) as Hal.
+  destruct (decode_of_built d lK (data_of_spec_wf _ _ Hdata) Hts Hss Hal) as (h & buf & Hfw & Hfl & Hac & Hm & Hdec).
+  exists (text_of_items its).
+  assert (Ht: text_of_wire (to_wire d) = Some (text_of_items its)).
+  { unfold text_of_wire. rewrite Hfw, Hdec. unfold to_command_line, cmd_items. cbn [r_fields r_strings]. rewrite Hfl, Hac, Hm.
+    unfold watch_items in Hw |- *. destruct (last_index 106 (w_triples d) 0 None); [|discriminate].
+    destruct (all_syscalls (w_mask d) && is_watch (w_flags d) (w_action d) _) eqn:E; [|discriminate].
+    apply andb_prop in E. destruct E as [_ E]. unfold is_watch in E. apply andb_prop in E. destruct E as [E _]. apply andb_prop in E. destruct E as [E1 E2].
+    apply N.eqb_eq in E1, E2. rewrite E1, E2 in *. cbn [list_name action_name N.eqb Pos.eqb]. rewrite Hw. reflexivity. }
+  assert (Hr: rebuild stat (text_of_items its) = Some d).
+  { unfold rebuild. rewrite (printed_text_splits _ Htok Hfo), Hparse. exact Hbuild. }
+  split; [exact Ht|]. split; [exact Hr|]. rewrite Hr. reflexivity.
+Qed.
+
 (* the value codecs on their own: whatever ToCommandLine prints after the operator is read back as the value *)
 Theorem C07_values_read_back f v t : f <> 111 -> value_in_range f v -> print_value f v = Some t -> parse_value f t = VOk v.
 Proof. exact (value_round_trip f v t). Qed.
@@ -61,6 +89,7 @@ Proof. exact (mask_of_listed_syscalls m). Qed.
 
 Print Assumptions C07_wire_roundtrip.
 Print Assumptions C07_round_trip_a_form.
+Print Assumptions C07_round_trip_w_form.
 Print Assumptions C07_values_read_back.
 Print Assumptions C07_mask_read_back.
 
